@@ -1,37 +1,59 @@
-(* Seq.v — keyed sequences: a child list in which some elements carry a key
-   (stories in roCreate, items in a story) and the rest are "others".
-   Generic edits used by every merge.  Definitions only. *)
+(* Seq.v — keyed sequences: a child list in which some elements carry an ID
+   (stories in roCreate, items in a story) and the rest are "others"; the generic
+   edits every merge is an instance of.  Definitions only. *)
 From Coq Require Import List Bool Arith.
 Import ListNotations.
-From Mos Require Import Xml.
+From Mos Require Import Str Xml Outcome.
+
+(* what find_child sees in a child: another tag; the right tag without an ID tag
+   (AttributeError); the right tag with its ID text (None = blank) *)
+Inductive kres (K : Type) := KOther | KBad | KKey (k : option K).
+Arguments KOther {K}.
+Arguments KBad {K}.
+Arguments KKey {K}.
+
+Inductive fc := FFound (i : nat) | FNone | FAttr.
 
 Section Seq.
 Context {A K : Type}.
-Variable key : A -> option K.
+Variable kof : A -> kres K.
 Variable keqb : K -> K -> bool.
 
-Definition has_key (id : K) (x : A) : bool :=
-  match key x with Some k => keqb k id | None => false end.
+Definition key_is (id : K) (x : A) : bool :=
+  match kof x with KKey (Some k) => keqb k id | _ => false end.
 
-(* position of the first element with the key *)
-Fixpoint find_pos (id : K) (l : list A) : option nat :=
+(* find_child(parent, tag, id) for a non-blank id *)
+Fixpoint find_from (id : K) (l : list A) (i : nat) : fc :=
   match l with
-  | [] => None
-  | x :: r => if has_key id x then Some O else option_map S (find_pos id r)
+  | [] => FNone
+  | c :: r =>
+    match kof c with
+    | KOther => find_from id r (S i)
+    | KBad => FAttr
+    | KKey k =>
+      if (match k with Some k' => keqb k' id | None => false end) then FFound i
+      else find_from id r (S i)
+    end
+  end.
+(* _find_by_id: a blank id never matches *)
+Definition lookup (id : option K) (l : list A) : fc :=
+  match id with
+  | None => FNone
+  | Some s => find_from s l 0
   end.
 
-Definition keys (l : list A) : list K :=
-  flat_map (fun x => match key x with Some k => [k] | None => [] end) l.
-Definition keyed (l : list A) : list A :=
-  filter (fun x => match key x with Some _ => true | None => false end) l.
-Definition others (l : list A) : list A :=
-  filter (fun x => match key x with Some _ => false | None => true end) l.
+(* the ID texts of the keyed children, in order *)
+Definition keys (l : list A) : list (option K) :=
+  flat_map (fun x => match kof x with KKey k => [k] | _ => [] end) l.
+Definition is_keyed (x : A) : bool := match kof x with KKey _ => true | _ => false end.
+Definition keyed (l : list A) : list A := filter is_keyed l.
+Definition others (l : list A) : list A := filter (fun x => negb (is_keyed x)) l.
+Definition no_bad (l : list A) : bool :=
+  forallb (fun x => match kof x with KBad => false | _ => true end) l.
 
 (* ---- node identity: every child is paired with its original index *)
 Definition tagl (l : list A) : list (nat * A) := combine (seq 0 (length l)) l.
 Definition memn (n : nat) (ps : list nat) : bool := existsb (Nat.eqb n) ps.
-Fixpoint nodupn (ps : list nat) : bool :=
-  match ps with [] => true | p :: r => negb (memn p r) && nodupn r end.
 (* parent.remove(node) for every node in ps *)
 Definition without (ps : list nat) (il : list (nat * A)) : list (nat * A) :=
   filter (fun p => negb (memn (fst p) ps)) il.
@@ -47,10 +69,9 @@ Fixpoint pos_of (i : nat) (il : list (nat * A)) : option nat :=
 
 (* _move_before(parent, nodes, target): remove all nodes, locate the target in the
    remainder (None = end), insert the nodes there in the order given.
-   Result None = ValueError from _index_of (target was one of the nodes). *)
+   Result None = ValueError from _index_of (the target was one of the nodes). *)
 Definition move_before (ps : list nat) (tp : option nat) (l : list A) : option (list A) :=
-  let il := tagl l in
-  let rest := without ps il in
+  let rest := without ps (tagl l) in
   let moved := pick ps l in
   match tp with
   | None => Some (map snd (insert_loop (length rest) moved rest))
@@ -62,13 +83,130 @@ Definition move_before (ps : list nat) (tp : option nat) (l : list A) : option (
   end.
 
 (* _swap(parent, node1, node2): sort by index, remove hi, remove lo,
-   insert hi-node at lo, insert lo-node at hi *)
+   insert the hi node at lo, insert the lo node at hi *)
 Definition swap_nodes (i j : nat) (l : list A) : list A :=
   let lo := Nat.min i j in
   let hi := Nat.max i j in
   match nth_error l lo, nth_error l hi with
   | Some a, Some b => insert_at hi a (insert_at lo b (remove_at lo (remove_at hi l)))
   | _, _ => l
+  end.
+
+(* ---- raising and warning evaluate self.message_id inside the f-string:
+   mex is the exception that evaluation raises, if any *)
+Variable mex : option exn.
+Definition merge_error : exn := match mex with Some e => e | None => MosMergeError end.
+Definition raise_merge {S} (s : S) : res S := fail s merge_error.
+Definition emit {S} (w : warn) (s : S) : res S :=
+  match mex with Some e => fail s e | None => R s [w] None end.
+
+(* for each ID: remove the first match, or warn *)
+Fixpoint delete_loop (w : warn) (ids : list (option K)) (l : list A) : res (list A) :=
+  match ids with
+  | [] => ok l
+  | id :: r =>
+    match lookup id l with
+    | FAttr => fail l PyAttributeError
+    | FFound i => delete_loop w r (remove_at i l)
+    | FNone => bind (emit w l) (delete_loop w r)
+    end
+  end.
+
+(* insert elements from index i, skipping (with a warning) those whose ID is already
+   known; the index advances only on insertion *)
+Variable id_of : A -> option K.        (* Story(x).id of a carried element *)
+Variable okeqb : option K -> option K -> bool.
+Fixpoint insert_dups (w : warn) (seen : list (option K)) (i : nat) (new : list A) (l : list A)
+  : res (list A) :=
+  match new with
+  | [] => ok l
+  | s :: r =>
+    let id := id_of s in
+    if existsb (okeqb id) seen then bind (emit w l) (insert_dups w seen i r)
+    else insert_dups w (id :: seen) (S i) r (insert_at i s l)
+  end.
+
+(* locate every source, rejecting unknown ones, the target itself and repeats *)
+Inductive vres := VOk (ps : list nat) | VMerge | VAttr.
+Fixpoint validate_sources (tp : option nat) (acc : list nat) (ids : list (option K)) (l : list A)
+  : vres :=
+  match ids with
+  | [] => VOk (rev acc)
+  | id :: r =>
+    match lookup id l with
+    | FAttr => VAttr
+    | FNone => VMerge
+    | FFound p =>
+      if (match tp with Some t => Nat.eqb p t | None => false end) || memn p acc then VMerge
+      else validate_sources tp (p :: acc) r l
+    end
+  end.
+
+(* target lookup for moves and inserts: a blank target means the end *)
+Inductive tres := TEnd | TAt (i : nat) | TMerge | TAttr.
+Definition locate_target (tgt : option K) (l : list A) : tres :=
+  match tgt with
+  | None => TEnd
+  | Some _ =>
+    match lookup tgt l with
+    | FFound i => TAt i
+    | FNone => TMerge
+    | FAttr => TAttr
+    end
+  end.
+
+Definition gen_move (tgt : option K) (srcs : list (option K)) (l : list A) : res (list A) :=
+  match locate_target tgt l with
+  | TAttr => fail l PyAttributeError
+  | TMerge => raise_merge l
+  | t =>
+    let tp := match t with TAt i => Some i | _ => None end in
+    match validate_sources tp [] srcs l with
+    | VAttr => fail l PyAttributeError
+    | VMerge => raise_merge l
+    | VOk ps =>
+      match move_before ps tp l with
+      | Some l' => ok l'
+      | None => fail l PyValueError
+      end
+    end
+  end.
+
+Definition gen_swap (ids : list (option K)) (l : list A) : res (list A) :=
+  match ids with
+  | [a; b] =>
+    match lookup a l with
+    | FAttr => fail l PyAttributeError
+    | FNone => raise_merge l
+    | FFound i =>
+      match lookup b l with
+      | FAttr => fail l PyAttributeError
+      | FNone => raise_merge l
+      | FFound j => if Nat.eqb i j then raise_merge l else ok (swap_nodes i j l)
+      end
+    end
+  | _ => raise_merge l
+  end.
+
+(* remove the child at index i and insert the replacements from that index *)
+Definition replace_with (i : nat) (new : list A) (l : list A) : list A :=
+  insert_loop i new (remove_at i l).
+
+(* replace the element with the given ID by the carried elements *)
+Definition gen_replace (tgt : option K) (new : list A) (l : list A) : res (list A) :=
+  match lookup tgt l with
+  | FAttr => fail l PyAttributeError
+  | FNone => raise_merge l
+  | FFound i => ok (replace_with i new l)
+  end.
+
+(* insert before the target, or at the end when the reference is blank *)
+Definition gen_insert (tgt : option K) (new : list A) (l : list A) : res (list A) :=
+  match locate_target tgt l with
+  | TAttr => fail l PyAttributeError
+  | TMerge => raise_merge l
+  | TEnd => ok (insert_loop (length l) new l)
+  | TAt i => ok (insert_loop i new l)
   end.
 
 End Seq.
